@@ -167,6 +167,15 @@ func (g *c07gen) stmt(depth int, inLoop map[string]bool) []gen.Node {
 				f.Seq = &gen.EHash{Keys: []gen.Expr{str("hk" + strconv.Itoa(base))}, Vals: []gen.Expr{num(base)}}
 			}
 		}
+		if ln > 0 && r.Intn(3) == 0 {
+			// an inline condition that rejects the first element, or all of them: what was bound for a rejected
+			// element is gone like everything else when the loop has ended
+			f.Cond = &gen.EBin{Op: []string{"!=", ">"}[r.Intn(2)], L: attr(nm("loop"), "index0"), R: num(0)}
+			if r.Intn(3) == 0 {
+				f.Cond = &gen.EBin{Op: ">", L: attr(nm("loop"), "index0"), R: num(5)}
+			}
+			g.sig = append(g.sig, "forif")
+		}
 		savedDef, savedShadow, savedML := copySet(g.defined), copySet(g.shadow), append([]string{}, g.mlocals...)
 		if !g.inMacro {
 			if g.defined[f.Val] || (f.Key != "" && g.defined[f.Key]) {
